@@ -131,7 +131,13 @@ pub fn run_script(seed: u64, script: &[String]) -> Vec<String> {
                         _ => {
                             let t: usize = f("t").expect("harness: t").parse().unwrap();
                             let e = ent("e");
-                            let a = arch_of(&world, e);
+                            // column guards address an archetype directly — empty ones included
+                            let a = if kind.starts_with("col") {
+                                let i: usize = f("e").and_then(|x| x.parse().ok()).unwrap_or(0);
+                                i % world.archetypes().len()
+                            } else {
+                                arch_of(&world, e)
+                            };
                             let lhs = format!("gnew {} kind={} a={} t={}", name, kind, a, t);
                             let r = guarded(|| new_comp_guard(&world, kind, t, e, a));
                             let out = match r {
